@@ -877,12 +877,36 @@ impl CypherTranslator {
                 }))
             }
             ast::Pattern::Path(path) => {
-                let mut current =
-                    self.translate_create_pattern(&ast::Pattern::Node(path.start.clone()), input)?;
+                // A plain node variable that the input already binds (MATCH (a) CREATE
+                // (a)-[:T]->(b)) refers to that node; only new variables and anonymous
+                // nodes are created.
+                let refers_to_bound = |plan: Option<&LogicalOperator>, node: &ast::NodePattern| {
+                    node.labels.is_empty()
+                        && node.properties.is_empty()
+                        && match (&node.variable, plan) {
+                            (Some(v), Some(p)) => Self::binds_variable(p, v),
+                            _ => false,
+                        }
+                };
+
+                let (mut current, mut last_variable) =
+                    if refers_to_bound(input.as_ref(), &path.start) {
+                        (
+                            input.ok_or_else(|| Error::Internal("CREATE requires input".into()))?,
+                            path.start.variable.clone().unwrap_or_default(),
+                        )
+                    } else {
+                        let created = self.translate_create_pattern(
+                            &ast::Pattern::Node(path.start.clone()),
+                            input,
+                        )?;
+                        let variable = self.get_last_node_variable(&Some(created.clone()))?;
+                        (created, variable)
+                    };
 
                 for rel in &path.chain {
-                    let from_variable = self.get_last_node_variable(&Some(current.clone()))?;
-                    let to_variable = rel
+                    let near_variable = last_variable.clone();
+                    let far_variable = rel
                         .target
                         .variable
                         .clone()
@@ -893,26 +917,34 @@ impl CypherTranslator {
                         .cloned()
                         .unwrap_or_else(|| "RELATED".to_string());
 
-                    let target_labels = rel.target.labels.clone();
-                    let target_props: Vec<(String, LogicalExpression)> = rel
-                        .target
-                        .properties
-                        .iter()
-                        .map(|(k, v)| Ok((k.clone(), self.translate_expression(v)?)))
-                        .collect::<Result<_>>()?;
+                    if !refers_to_bound(Some(&current), &rel.target) {
+                        let target_labels = rel.target.labels.clone();
+                        let target_props: Vec<(String, LogicalExpression)> = rel
+                            .target
+                            .properties
+                            .iter()
+                            .map(|(k, v)| Ok((k.clone(), self.translate_expression(v)?)))
+                            .collect::<Result<_>>()?;
 
-                    current = LogicalOperator::CreateNode(CreateNodeOp {
-                        variable: to_variable.clone(),
-                        labels: target_labels,
-                        properties: target_props,
-                        input: Some(Box::new(current)),
-                    });
+                        current = LogicalOperator::CreateNode(CreateNodeOp {
+                            variable: far_variable.clone(),
+                            labels: target_labels,
+                            properties: target_props,
+                            input: Some(Box::new(current)),
+                        });
+                    }
 
                     let edge_props: Vec<(String, LogicalExpression)> = rel
                         .properties
                         .iter()
                         .map(|(k, v)| Ok((k.clone(), self.translate_expression(v)?)))
                         .collect::<Result<_>>()?;
+
+                    // (a)<-[:T]-(b) creates the edge from b to a
+                    let (from_variable, to_variable) = match rel.direction {
+                        ast::Direction::Incoming => (far_variable.clone(), near_variable),
+                        _ => (near_variable, far_variable.clone()),
+                    };
 
                     current = LogicalOperator::CreateEdge(CreateEdgeOp {
                         variable: rel.variable.clone(),
@@ -922,6 +954,7 @@ impl CypherTranslator {
                         properties: edge_props,
                         input: Box::new(current),
                     });
+                    last_variable = far_variable;
                 }
 
                 Ok(current)
@@ -1314,6 +1347,47 @@ impl CypherTranslator {
             LogicalOperator::Filter(filter) => Self::get_last_variable(&filter.input),
             LogicalOperator::Project(project) => Self::get_last_variable(&project.input),
             _ => Err(Error::Internal("Cannot get variable from operator".into())),
+        }
+    }
+
+    /// Is `variable` bound by the given plan?
+    fn binds_variable(plan: &LogicalOperator, variable: &str) -> bool {
+        match plan {
+            LogicalOperator::NodeScan(scan) => {
+                scan.variable == variable
+                    || scan
+                        .input
+                        .as_deref()
+                        .is_some_and(|i| Self::binds_variable(i, variable))
+            }
+            LogicalOperator::Expand(e) => {
+                e.to_variable == variable
+                    || e.edge_variable.as_deref() == Some(variable)
+                    || Self::binds_variable(&e.input, variable)
+            }
+            LogicalOperator::CreateNode(n) => {
+                n.variable == variable
+                    || n.input
+                        .as_deref()
+                        .is_some_and(|i| Self::binds_variable(i, variable))
+            }
+            LogicalOperator::CreateEdge(e) => {
+                e.variable.as_deref() == Some(variable) || Self::binds_variable(&e.input, variable)
+            }
+            LogicalOperator::Filter(f) => Self::binds_variable(&f.input, variable),
+            LogicalOperator::Limit(l) => Self::binds_variable(&l.input, variable),
+            LogicalOperator::Skip(s) => Self::binds_variable(&s.input, variable),
+            LogicalOperator::Sort(s) => Self::binds_variable(&s.input, variable),
+            LogicalOperator::Distinct(d) => Self::binds_variable(&d.input, variable),
+            LogicalOperator::Join(j) => {
+                Self::binds_variable(&j.left, variable) || Self::binds_variable(&j.right, variable)
+            }
+            LogicalOperator::Project(p) => p.projections.iter().any(|item| {
+                item.alias.as_deref() == Some(variable)
+                    || (item.alias.is_none()
+                        && matches!(&item.expression, LogicalExpression::Variable(v) if v == variable))
+            }),
+            _ => false,
         }
     }
 
